@@ -183,7 +183,11 @@ def install_probes():
         _worker.__name__ = orig.__name__
         return _worker
 
-    _wrap_module_attr(m.ddmin, '_worker', mk_worker)
+    if hasattr(m.ddmin, '_worker'):
+        _wrap_module_attr(m.ddmin, '_worker', mk_worker)
+    # else: renamed; the pool records the task of every worker itself, only
+    # the sequential path (main calls the worker function directly) loses the
+    # task id (ddmin rules fall back to "no attribution")
 
     # -- check_exprs ------------------------------------------------------------
     def mk_check(orig):
@@ -267,12 +271,14 @@ def install_probes():
                 # ddmin: (round, id) of the task whose result main holds
                 'ddmin_task': f'{len(rec.rounds)}/{rec.last_task_main}'
                 if rec.last_task_main is not None else None,
+                # (used once: the next adoption needs a result of its own)
                 'seq0': rec.seq(),
                 'seq1': None,
                 'completed': False,
                 'dup': None,
             }
             rec.writes.append(w)
+            rec.last_task_main = None
             rec.begin_rewrite('probe')
             try:
                 r = orig(filename, exprs, *a, **k)
@@ -319,6 +325,8 @@ def install_probes():
                         if ntok > rec.max_tokens:
                             rec.max_tokens = ntok
                         dup = ids_duplicate(exprs)
+                        # a new round: no result of an earlier one counts
+                        rec.last_task_main = None
                         rec.rounds.append({
                             'kind': kind,
                             'seq': rec.seq(),
@@ -657,12 +665,16 @@ def _resolve_codes():
     # the rewrite boundaries (they only fire while main rewrites the output
     # file).  By module, not by name: a renamed or split function stays
     # instrumented.
-    for mod in (m.ddmin, m.hier, m.checker):
+    mods = [m.ddmin, m.hier, m.checker]
+    for n in sorted(sys.modules):
+        # helper modules a refactoring may have split off the strategies
+        if n.startswith('ddsmt.strategy') and sys.modules[n] not in mods:
+            mods.append(sys.modules[n])
+    for mod in mods:
         sched_codes.extend(_module_codes(mod))
     io_codes.extend(_module_codes(m.nodeio))
-    for n in ('_worker', 'reduce'):
-        if not hasattr(m.ddmin, n):
-            MISSING.append('code:ddmin.' + n)
+    if not hasattr(m.ddmin, 'reduce'):
+        MISSING.append('code:ddmin.reduce')
     return sched_codes, io_codes
 
 
